@@ -310,6 +310,7 @@ m("C18-n2", "C18", "libwallet/src/api_impl/owner.rs", "\tupdate_outputs(wallet_i
 m("C18-n3", "C18", "libwallet/src/api_impl/owner.rs", "\t\ttrue => w.acct_path_iter().map(|m| m.path).collect(),\n\t\tfalse => vec![w.parent_key_id()],", "\t\tfalse => w.acct_path_iter().map(|m| m.path).collect(),\n\t\ttrue => vec![w.parent_key_id()],", "C18.R9")
 m("C10-i", "C10", "libwallet/src/slatepack/armor.rs", "\tif error_code.iter().eq(new_check.iter()) {", "\tlet diff = error_code.iter().zip(new_check.iter()).fold(0u8, |acc, (a, b)| acc ^ (a ^ b));\n\tif error_code.len() == new_check.len() && diff == 0 {", "C10.R4")
 m("C07-n1", "C07", "libwallet/src/api_impl/foreign.rs", "\t\tif t.tx_type == TxLogEntryType::TxReceived || t.tx_type == TxLogEntryType::TxReverted {", "\t\tif t.tx_type == TxLogEntryType::TxReceived {", "C07.R3")
+m("C12-n1", "C12", "impls/src/lifecycle/seed.rs", "\t\tlet nonce: [u8; 12] = thread_rng().gen();\n\t\tlet password = password.as_bytes();", "\t\tlet nonce: [u8; 12] = thread_rng().gen();\n\t\tlet password = &password.as_bytes()[..password.len().min(64)];", "C12.R4")
 m("C10-r6", "C10", "libwallet/src/address.rs", "key_path.path[key_path.depth as usize - 1] = ChildNumber::from(index);", "key_path.path[key_path.depth as usize] = ChildNumber::from(index);", "C10.R6")
 m("C19-r6", "C19", "libwallet/src/types.rs", "\t#[serde(with = \"option_duration_as_secs\", default)]\n\tpub reverted_after: Option<Duration>,\n}\n\nimpl ser::Writeable for TxLogEntry", "\t#[serde(with = \"option_duration_as_secs\")]\n\tpub reverted_after: Option<Duration>,\n}\n\nimpl ser::Writeable for TxLogEntry", "C19.R6")
 
